@@ -72,6 +72,8 @@ pub enum Expr {
     Eof(i32),
     /// parenthesised
     Paren(Box<Expr>),
+    /// LEN of a string literal (a built-in function call)
+    LenOf(String),
 }
 
 #[derive(Clone, Debug, PartialEq, Serialize, Deserialize)]
@@ -323,6 +325,9 @@ pub struct Proc {
     /// integer parameters, e.g. ["P1%"]
     pub params: Vec<String>,
     pub body: Vec<Stmt>,
+    /// declared STATIC
+    #[serde(default)]
+    pub is_static: bool,
 }
 
 /// One program.
